@@ -80,7 +80,15 @@ impl<'js> FromJs<'js> for ActValue {
             }
             rquickjs::Type::Bool => Ok(serde_json::json!(v.as_bool().unwrap_or(false))),
             rquickjs::Type::Int => Ok(serde_json::json!(v.as_int().unwrap_or(0))),
-            rquickjs::Type::Float => Ok(serde_json::json!(v.as_float().unwrap_or(0.0))),
+            rquickjs::Type::Float => {
+                let f = v.as_float().unwrap_or(0.0);
+                // js has one number type: an integral number is stored as an integer again
+                if f.fract() == 0.0 && f.abs() <= 9007199254740992.0 {
+                    Ok(serde_json::json!(f as i64))
+                } else {
+                    Ok(serde_json::json!(f))
+                }
+            }
             rquickjs::Type::String => Ok(serde_json::json!(
                 v.as_string()
                     .unwrap()
